@@ -705,6 +705,7 @@ def run(w: World, rep: Report):
             is_len = 'len(' in recv or any('len(' in d or d == '0' for d in defs)
             is_op = 'opcodes_inverse' in recv
             is_handle = False
+            narrow_handle = None
             if not is_len and not is_op and recv.isidentifier():
                 # some comparison in the parser admits exactly 0..255 for it (whatever its spelling)
                 from .feval import feval, Unknown, free_names
@@ -717,6 +718,10 @@ def run(w: World, rep: Report):
                         continue
                     if acc == set(range(256)):
                         is_handle = True
+                    elif len(acc) >= 200 and acc < set(range(256)):
+                        # a spelling of the handle that admits almost, but not all of 0..255: a handle the VM (and the
+                        # decompiler's listing) knows cannot be written in that form
+                        narrow_handle = (ast.unparse(cmpn)[:40], sorted(set(range(256)) - acc)[:3], cmpn.lineno)
             if order != 'big':
                 why = f'`{recv}.to_bytes` is not big-endian'
             if is_len and k != 2:
@@ -725,6 +730,9 @@ def run(w: World, rep: Report):
                 why = f'`{recv}` emitted with {k} bytes; the VM reads 1'
             if not (is_len or is_op or is_handle):
                 why = f'unrecognised emitted integer `{recv}`'
+            if is_handle and narrow_handle:
+                why = (f'`{narrow_handle[0]}` (line {narrow_handle[2]}) refuses the handle(s) {narrow_handle[1]} that one byte can hold: '
+                       f'`def 255`, which the decompiler prints for handle byte ff, does not compile')
         if not widths:
             why = 'no encoded integers found'
         rep.check('C11.R2b', f'parsing.{parser}|widths', not why, file=RELP, line=fi.node.lineno, why=why,
@@ -748,6 +756,26 @@ def run(w: World, rep: Report):
     # ---- R7 one- vs two-symbol operand forms are told apart by the instruction tables -------
     _lookahead(w, rep)
 
+    # ---- R9 the alias table: the OP_-prefixed and the bare spelling of an alias name the same instruction ----------
+    rep.rule('C11.R9', 'alias table: `OP_<alias>` and `<alias>` name the same instruction, and every alias names an '
+             'instruction of the op table', floor=30)
+    fm = w.repo.modules.get('functions')
+    pairs = {}
+    for st in fm.tree.body:
+        if isinstance(st, ast.Assign) and len(st.targets) == 1 and isinstance(st.targets[0], ast.Subscript) and \
+                isinstance(st.targets[0].value, ast.Name) and st.targets[0].value.id == 'opcode_aliases' and \
+                isinstance(st.targets[0].slice, ast.Constant) and isinstance(st.value, ast.Constant):
+            pairs[st.targets[0].slice.value] = (st.value.value, st.lineno)
+    if len(pairs) < 30:
+        raise AnalysisError(f'only {len(pairs)} literal alias entries found')
+    for k, (v, line) in sorted(pairs.items()):
+        if not k.startswith('OP_'):
+            continue
+        bare = pairs.get(k[3:])
+        ok9 = (bare is None or bare[0] == v) and v in vm
+        rep.check('C11.R9', f'functions.opcode_aliases|{k}', ok9, line=line, file='tapescript/functions.py',
+                  why='' if ok9 else (f'`{k}` names {v} but `{k[3:]}` names {bare[0]}: the two spellings of one alias assemble to '
+                                      f'different instructions' if bare is not None and bare[0] != v else f'`{k}` names {v}, which is not an instruction'))
     # ---- R8 numbers from the source are encoded unreduced -----------------------------------
     _lossless_numbers(w, rep)
 
